@@ -490,6 +490,32 @@ def vh_resumable(args, total, out_path, timeout=3000):
     return rows
 
 
+def cached_trace_validate_parallel(chk, module, cfg, rows, spec_files, extra_files=(), group="group", **kw):
+    """trace_validate_parallel whose verdict list is shared by the checks of one group (they evaluate the same specification
+    on the same recorded lines). The key is made of the recorded lines — which contain everything the real code said —, the
+    extra input files and the specification files; any change of code or specification changes the key."""
+    import hashlib
+    h = hashlib.sha256()
+    h.update(json.dumps(rows, sort_keys=True).encode())
+    for f in list(extra_files) + [os.path.join(SPEC, m) for m in list(spec_files) + [module + ".tla", cfg]]:
+        h.update(open(f, "rb").read())
+    cache_dir = os.path.join(VERIF, "work", "_cache")
+    os.makedirs(cache_dir, exist_ok=True)
+    cache = os.path.join(cache_dir, "%s_%s.json" % (group, h.hexdigest()[:32]))
+    if os.path.exists(cache):
+        c = json.load(open(cache))
+        chk.cov["states"] += c["states"]
+        chk.cov["transitions"] += c["transitions"]
+        chk.note("TLC verdicts for these %d recorded lines reused from the %s cache (same lines, same specification)" % (len(rows), group))
+        return c["bad"]
+    s0, t0 = chk.cov["states"], chk.cov["transitions"]
+    bad = trace_validate_parallel(chk, module, cfg, rows, **kw)
+    tmp = cache + ".tmp%d" % os.getpid()
+    json.dump({"bad": bad, "states": chk.cov["states"] - s0, "transitions": chk.cov["transitions"] - t0}, open(tmp, "w"))
+    os.replace(tmp, cache)
+    return bad
+
+
 def canary_replay(chk, cmd, case, what):
     can = os.path.join(chk.work, "canary_case.ndjson")
     with open(can, "w", encoding="utf8") as f:
